@@ -314,7 +314,9 @@ def registries():
     from autograd.tracer import notrace_primitives, Box
     return {"vjps": {id(k): id(v) for k, v in primitive_vjps.items()}, "jvps": {id(k): id(v) for k, v in primitive_jvps.items()},
             "notrace": frozenset((getattr(k, "__name__", repr(k)), frozenset(map(id, v))) for k, v in notrace_primitives.items()),
-            "boxes": {id(k): id(v) for k, v in Box.type_mappings.items()}, "vspaces": {id(k): id(v) for k, v in VSpace.mappings.items()}}
+            "boxes": {id(k): id(v) for k, v in Box.type_mappings.items()}, "vspaces": {id(k): id(v) for k, v in VSpace.mappings.items()},
+            # ambient interpreter state a differentiation call has no business changing: NumPy's floating-point error modes and print options
+            "np": (tuple(sorted(__import__("numpy").geterr().items())), repr(sorted(__import__("numpy").get_printoptions().items())))}
 
 
 def registries_ok(before, after):
@@ -322,7 +324,8 @@ def registries_ok(before, after):
     for t in ("vjps", "jvps"):
         if any(after[t].get(k) != v for k, v in before[t].items()):
             return False
-    return before["notrace"] == after["notrace"] and before["boxes"] == after["boxes"] and before["vspaces"] == after["vspaces"]
+    return before["notrace"] == after["notrace"] and before["boxes"] == after["boxes"] and before["vspaces"] == after["vspaces"] \
+        and before.get("np") == after.get("np")
 
 
 def run_case(case):
